@@ -13,7 +13,7 @@ for m in sorted(glob.glob(os.path.join(V, "seeded", "*", "meta.json"))):
         import re
         laws = ", ".join(sorted(set(re.findall(r"law=(\w+)", open(cl, errors="replace").read())) | set(re.findall(r"target=(\w+)", open(cl, errors="replace").read()))))
     first = d.get("what_it_needs", "").strip().splitlines()
-    rows.append((sid, "yes" if d.get("claim_confirmed") else "NO", "caught" if caught else d.get("final_status", "MISSED"), laws[:70], d.get("summary", (first[0] if first else ""))[:140].replace("|", "/")))
+    rows.append((sid, "yes" if d.get("claim_confirmed") else "NO", d.get("final_status") or ("caught" if caught else "MISSED"), laws[:70], d.get("summary", (first[0] if first else ""))[:140].replace("|", "/")))
 with open(os.path.join(V, "seeded", "SUMMARY.md"), "w") as f:
     f.write("# Independently seeded breaking changes (written by sub-agents that saw only the property text)\n\n")
     f.write("claim confirmed = with the change the repository's 20 tests pass and the author's demo fails, without it the demo passes (re-run by tools/eval_seed.sh).\n")
